@@ -241,3 +241,8 @@ for _p in ("C01", "C04"):
 
 for _p in ("C03", "C05", "C06", "C17", "C18", "C20"):
     PROPS[_p] = _engine_prop("props/%si.v" % _p, [])
+
+PROPS["C02"]["drivers"] = PROPS["C02"]["drivers"] + [{"name": "engine", "n_quick": 100, "n_thorough": 2000, "timeout": 1200}]
+PROPS["C02"]["model_files"] = list(dict.fromkeys(PROPS["C02"]["model_files"] + ENGINE_MODEL))
+PROPS["C02"]["rule"] = PROPS["C02"]["rule"] + " || engine level: " + ENGINE_RULE
+PROPS["C02"]["assumptions"] = PROPS["C02"].get("assumptions", []) + ENGINE_ASSUME
